@@ -8,3 +8,4 @@ for p in "$@"; do
   echo "== seeded/$id vs $p: exit=$rc"; echo "$out" | grep -v "^KNOWN-FINDING" | head -6
 done
 git -C /repo checkout -- .
+(cd /verif && ./hb.sh >/dev/null 2>&1)  # the harness binary was built against the patched tree
